@@ -133,7 +133,22 @@ def _guards(fn, inst):
                 tgt = t.x['targets'][k]
                 if tgt != t.x['targets'][1 - k] and fn.bmap[tgt].preds == [b.id] and cfg.dominates(tgt, inst.block.id):
                     _expand(fn, fn.imap[t.ops[0]], sense, out, 0)
+        elif t.op == 'switch' and t.ops and t.x.get('cases'):
+            # a case edge is the comparison `value == constant` (a case block reached by one edge only); the default edge is its negation for
+            # every case
+            cases = t.x['cases']
+            dflt = (t.x.get('targets') or [None])[0]
+            for cval, tgt in cases:
+                if [x for x in cases if x[1] == tgt] == [[cval, tgt]] and tgt != dflt and fn.bmap[tgt].preds == [b.id] and cfg.dominates(tgt, inst.block.id):
+                    out.append((_switch_cmp(fn, t, cval), True))
+            if dflt is not None and dflt not in [x[1] for x in cases] and fn.bmap[dflt].preds == [b.id] and cfg.dominates(dflt, inst.block.id):
+                for cval, tgt in cases:
+                    out.append((_switch_cmp(fn, t, cval), False))
     return out
+
+def _switch_cmp(fn, t, cval):
+    """the comparison a switch makes on one of its case edges, as a synthetic icmp"""
+    return IR.Inst({'id': '%s.case%s' % (t.id, cval), 'op': 'icmp', 'ty': 'i1', 'ops': [t.ops[0], {'k': 'int', 'v': cval, 'w': 32}], 'pred': 'eq', 'loc': t.loc}, t.block, fn, t.idx)
 
 def _expand(fn, c, sense, out, depth):
     """a && b is lowered to phi i1 [false, ...], [b, ...]: the phi being true implies its only non-constant arm was true
